@@ -62,6 +62,11 @@ def lib_dyn(n: int):
     return n
 
 @move
+def lib_hopx(x: float):
+    f = schedule.device_fn(hop, [0, 1], [0])
+    f(x)
+
+@move
 def lib_layer(k: int):
     lib_gate()
     return lib_rows(k)
@@ -69,11 +74,13 @@ def lib_layer(k: int):
 KERNELS = {
     "K1": "def K1():\n    lib_gate()\n    return lib_rows(0)\n",
     "K2": "def K2():\n    x = lib_park()\n    lib_gate()\n    return x\n",
+    "K6": "def K6(x: float):\n    lib_gate()\n    lib_hopx(x)\n    return 6\n",       # its device call can only be evaluated at run time
     "K5": "def K5():\n    lib_gate()\n    return lib_dyn(2)\n",
     "K4": "def K4():\n    return lib_layer(1)\n",
     "K3": "def K3():\n    from_way = spec.get_static_trap(zone_id=\"traps\")\n    move_by_waypoints(ilist.IList([from_way[0:2, 0:2], from_way[1:3, 0:2]]), True, True)\n    return lib_rows(2)\n",
 }
-SHARED_NAMES = ["lib_gate", "lib_rows", "lib_park", "lib_layer", "lib_dyn", "move_by_waypoints", "move_by_waypoints_kernel", "hop"]
+KARGS = {"K6": (1.5,)}
+SHARED_NAMES = ["lib_gate", "lib_rows", "lib_park", "lib_layer", "lib_dyn", "lib_hopx", "move_by_waypoints", "move_by_waypoints_kernel", "hop"]
 
 
 SHARED_IDS = {}      # id(shared method of the current world) -> name
@@ -125,8 +132,8 @@ class World:
     def shared_behaviour(self):
         out = {}
         for sk, S in self.specs.items():
-            for n in ("lib_gate", "lib_rows", "lib_park", "lib_layer", "lib_dyn"):
-                args = (1,) if n in ("lib_rows", "lib_layer") else (2,) if n == "lib_dyn" else ()
+            for n in ("lib_gate", "lib_rows", "lib_park", "lib_layer", "lib_dyn", "lib_hopx"):
+                args = (1,) if n in ("lib_rows", "lib_layer") else (2,) if n == "lib_dyn" else (0.5,) if n == "lib_hopx" else ()
                 out[(n, sk)] = log_text(*events.run_events(self.shared[n], args, S))
         return out
 
@@ -137,7 +144,7 @@ class World:
     def run_compiled(self, kname):
         m, sk = self.compiled[kname]
         # plain interpreter: the kernel may only see what was specialised into it
-        return log_text(*events.run_events(m, (), self.specs[sk], plain=True))
+        return log_text(*events.run_events(m, KARGS.get(kname, ()), self.specs[sk], plain=True))
 
 
 def expected_logs(specs):
@@ -147,7 +154,7 @@ def expected_logs(specs):
         for sk, S in specs.items():
             w = World(specs)
             m = kernels.define("@move\n" + KERNELS[kname], **w.ns)[kname]
-            out[(kname, sk)] = log_text(*events.run_events(m, (), S))
+            out[(kname, sk)] = log_text(*events.run_events(m, KARGS.get(kname, ()), S))
     return out
 
 
@@ -243,9 +250,9 @@ def run(ctx):
 def store_model(ctx, hists):
     """replay the compile steps on Model.Store and let Coq predict which observations may change"""
     # method ids: 0 lib_gate, 1 lib_rows, 2 lib_park, 3 move_by_waypoints, 4 K1, 5 K2, 6 K3, 7 lib_layer, 8 K4, 9 lib_dyn, 10 K5 ; calls as in the sources
-    calls = {0: [], 1: [0], 2: [1], 3: [], 4: [0, 1], 5: [2, 0], 6: [3, 1], 7: [0, 1], 8: [7], 9: [], 10: [0, 9]}
-    kid = {"K1": 4, "K2": 5, "K3": 6, "K4": 8, "K5": 10}
-    init = clist([f"(mkmeth {cnat(i)} None {clist([cnat(c) for c in calls[i]])})" for i in range(11)])
+    calls = {0: [], 1: [0], 2: [1], 3: [], 4: [0, 1], 5: [2, 0], 6: [3, 1], 7: [0, 1], 8: [7], 9: [], 10: [0, 9], 11: [], 12: [0, 11]}
+    kid = {"K1": 4, "K2": 5, "K3": 6, "K4": 8, "K5": 10, "K6": 12}
+    init = clist([f"(mkmeth {cnat(i)} None {clist([cnat(c) for c in calls[i]])})" for i in range(13)])
     rows = []
     for h in hists[:40]:
         steps = clist([f"({cnat(kid[x[1]])}, {cnat(1 if x[2] == 'A' else 2)})" for x in h if x[0] == "compile"])
@@ -253,7 +260,7 @@ def store_model(ctx, hists):
     body = COQ_IMPORT + f"Definition st0 : store := {init}.\n"
     body += ("Definition row (steps : list (nat * nat)) : string :=\n"
              "  let st := fold_left (fun s c => compile s (fst c) (snd c)) steps st0 in\n"
-             "  (show_bool (shared_unchanged 4%nat st0 st && meth_eqb (nth 7 st0 dflt) (nth 7 st dflt) && meth_eqb (nth 9 st0 dflt) (nth 9 st dflt)) ++ show_bool (forallb (fun c => sees_only 12%nat st (fst c) (last_spec steps (fst c))) steps))%string.\n")
+             "  (show_bool (shared_unchanged 4%nat st0 st && meth_eqb (nth 7 st0 dflt) (nth 7 st dflt) && meth_eqb (nth 9 st0 dflt) (nth 9 st dflt) && meth_eqb (nth 11 st0 dflt) (nth 11 st dflt)) ++ show_bool (forallb (fun c => sees_only 12%nat st (fst c) (last_spec steps (fst c))) steps))%string.\n")
     body += "Eval vm_compute in (lines (map row " + clist(rows) + "))."
     ok, vals, log = coqrun.eval_lines(ctx.bdir, "store", body)
     if not ok or len(vals) != 1:
